@@ -164,10 +164,12 @@ func (m *Distributor) SumOwed() Coins {
 // Block runs one block. addrOf maps a module/base account to its address.
 // payoutFails tells whether the end-of-block payout to a key fails in this
 // block; sweepFails whether sweeping a source account fails.
-func (m *Distributor) Block(subs []DSub, addrOf func(a DAccount) string, payoutFails func(key string) bool, sweepFails func(key string) bool) {
+func (m *Distributor) Block(subs []DSub, addrOf func(a DAccount) string, payoutFails func(key string) bool, sweepFails func(key string, attempt int) bool) {
 	m.Inflow = map[string]Coins{}
 	m.MainKept = map[string]Coins{}
 	m.Assigned = map[string]map[string]Coins{}
+	attempts := map[string]int{}
+	failed := map[string]bool{}
 	for _, sd := range subs {
 		inflow := Coins{}
 		// MAIN first: its inflow is what is on the main account and owed to nobody
@@ -184,10 +186,18 @@ func (m *Distributor) Block(subs []DSub, addrOf func(a DAccount) string, payoutF
 				inflow.Add(m.owed(s.Key()))
 				m.Owed[s.Key()] = Coins{}
 			default:
-				if sweepFails == nil || !sweepFails(s.Key()) {
-					a := addrOf(s)
-					inflow.Add(m.bal(a))
-					m.Bal[a] = Coins{}
+				a := addrOf(s)
+				if !m.bal(a).IsZero() && !failed[s.Key()] {
+					// the real code only calls the bank when there is something to sweep; a source
+					// whose sweep failed is left alone for the rest of the block
+					n := attempts[s.Key()]
+					attempts[s.Key()] = n + 1
+					if sweepFails != nil && sweepFails(s.Key(), n) {
+						failed[s.Key()] = true
+					} else {
+						inflow.Add(m.bal(a))
+						m.Bal[a] = Coins{}
+					}
 				}
 				inflow.Add(m.owed(s.Key()))
 				m.Owed[s.Key()] = Coins{}
